@@ -131,7 +131,7 @@ namespace _fmt_basics {
 
 			if (--c == 0) {
 				sink.append(locale_opts.thousands_sep);
-				if (!r || !--r)
+				if ((!r || !--r) && g > 0)
 					g--;
 				c = locale_opts.grouping[g];
 			}
